@@ -242,7 +242,7 @@ PROPS["C02"] = dict(
 
 NOT_APPLICABLE = {}
 
-HOOK_COMMITS = ["ce15100", "8c40017", "702cd0d"]
+HOOK_COMMITS = ["ce15100", "8c40017", "702cd0d", "9bc275a"]
 
 NOTES = ("Every check rebuilds its test binary from /repo's working tree (tag verif), runs committed regression examples, "
          "then the generated tier (rapid shards / enumerations), merges measured coverage and writes evidence/<id>.json. "
